@@ -89,6 +89,38 @@ def _et_shape(e):
     return (e.tag, tuple(sorted(e.attrib.items())), e.text or None, tuple(_et_shape(c) for c in e))
 
 
+NSPAIR = {'saml': 'urn:oasis:names:tc:SAML:2.0:assertion', 'samlp': 'urn:oasis:names:tc:SAML:2.0:protocol', 'md': 'urn:oasis:names:tc:SAML:2.0:metadata',
+          'ds': 'http://www.w3.org/2000/09/xmldsig#', 'xenc': 'http://www.w3.org/2001/04/xmlenc#', 'xsi': 'http://www.w3.org/2001/XMLSchema-instance',
+          'xs': 'http://www.w3.org/2001/XMLSchema', 'vf': FOREIGN}
+
+
+def alternative_serialisers(obj, s, clsname):
+    """the other public routes from an object to XML must describe the same element as to_string(): conversion into extension content
+    (element_to_extension_element, used for SOAP bodies, Extensions and encrypted assertions), to_string(nspair) and to_string_force_namespace(nspair)"""
+    from xml.etree import ElementTree as ET
+    from saml2_tophat import element_to_extension_element
+    base = _et_shape(ET.fromstring(s))
+    routes = [('element_to_extension_element', lambda: element_to_extension_element(obj).to_string()),
+              ('to_string(nspair)', lambda: obj.to_string(dict(NSPAIR))),
+              ('to_string_force_namespace', lambda: obj.to_string_force_namespace(dict(NSPAIR)))]
+    for name, f in routes:
+        try:
+            alt = f()
+        except Exception as e:
+            raise Violation('alternative-serialiser-raises', '%s: %s raised %r' % (clsname, name, e), detail={'route': name})
+        try:
+            shape = _et_shape(ET.fromstring(alt))
+        except ET.ParseError as e:
+            raise Violation('alternative-serialisation-not-well-formed', '%s: %s produced text that does not parse (%s): %r' % (clsname, name, e, alt[:300]), detail={'route': name})
+        if shape != base:
+            raise Violation('alternative-serialisation-differs', '%s: %s describes another element than to_string(): %s' % (clsname, name, _first_diff(_listify(base), _listify(shape))),
+                            detail={'route': name})
+
+
+def _listify(t):
+    return [t[0], dict(t[1]), t[2], [_listify(c) for c in t[3]]]
+
+
 def roundtrip(spec, inject=None):
     from xml.etree import ElementTree as ET
     from saml2_tophat import create_class_from_xml_string
@@ -110,6 +142,7 @@ def roundtrip(spec, inject=None):
     s2 = back.to_string()
     if s2 != s:
         raise Violation('second-serialisation-differs', '%s: %r vs %r' % (spec['cls'], s[:200], s2[:200]))
+    alternative_serialisers(back, s, spec['cls'])
     root = ET.fromstring(s)
     check_shape(root, expected_shape(spec), spec['cls'].split(':')[1])
     published_order(root, spec)
